@@ -210,6 +210,9 @@ static void capture_H(const of_mod2sparse *m, uint32_t k, uint32_t r, int ***pH,
 }
 
 static int g_hook_k_r_valid; static uint32_t g_hook_k, g_hook_r;
+/* ML decoding events of the current call (layer-B binding of LdpcMl; diagnosis only) */
+#define MAXML 256
+static int g_ml_perm[MAXML], g_ml_nperm, g_ml_piv[MAXML], g_ml_npiv, g_ml_simpl[3], g_ml_have_simpl, g_ml_fail;
 static void verif_hook(const char *name, const void *obj, long a, long b, long c, long d)
 {
 	int save = g_in_lib; g_in_lib = 0;
@@ -219,6 +222,10 @@ static void verif_hook(const char *name, const void *obj, long a, long b, long c
 		capture_H((const of_mod2sparse *)obj, (uint32_t)(b - a), (uint32_t)a, &g_hookH, &g_hookHn, &g_hooknH);
 		g_hook_have = 1;
 	}
+	else if (!strcmp(name, "ml_perm")) { if (a >= 0 && a < MAXML) { g_ml_perm[a] = (int)b; if (a + 1 > g_ml_nperm) g_ml_nperm = (int)a + 1; } }
+	else if (!strcmp(name, "ml_simplified")) { g_ml_simpl[0] = (int)a; g_ml_simpl[1] = (int)b; g_ml_simpl[2] = (int)c; g_ml_have_simpl = 1; }
+	else if (!strcmp(name, "ge_pivot")) { if (g_ml_npiv < MAXML) g_ml_piv[g_ml_npiv++] = (int)b; }
+	else if (!strcmp(name, "ge_fail")) { g_ml_fail = (int)a + 1; }
 	(void)c; (void)d;
 	g_in_lib = save;
 }
@@ -650,10 +657,21 @@ static void run_line(char *line)
 		free(tab); free(copy); free(lst);
 		emit_common(s, sid, st); jb_printf("}\n"); jb_flush();
 	} else if (!strcmp(op, "finish")) {
+		g_ml_nperm = g_ml_npiv = g_ml_have_simpl = g_ml_fail = 0;
 		LIB_ENTER(sid);
 		of_status_t st = of_finish_decoding(s->ses);
 		LIB_LEAVE();
 		jb_printf("{\"e\":\"Finish\",\"x\":%ld,\"s\":%d", g_exec, sid);
+		if (g_itproj && s->codec == 3 && s->configured && (int)s->n <= g_itproj && !s->payload && s->r <= MAXML) {
+			of_linear_binary_code_cb_t *cb = (of_linear_binary_code_cb_t *)s->ses;
+			jb_printf(",\"ml\":{\"perm\":[");
+			for (int i = 0; i < g_ml_nperm; i++) jb_printf("%s%d", i ? "," : "", g_ml_perm[i]);
+			jb_printf("],\"simpl\":[%d,%d,%d],\"piv\":[", g_ml_have_simpl ? g_ml_simpl[0] : -1, g_ml_have_simpl ? g_ml_simpl[1] : -1, g_ml_have_simpl ? g_ml_simpl[2] : -1);
+			for (int i = 0; i < g_ml_npiv; i++) jb_printf("%s%d", i ? "," : "", g_ml_piv[i]);
+			jb_printf("],\"fail\":%d,\"known\":[", g_ml_fail);
+			{ int first = 1; for (uint32_t i = 0; i < s->k; i++) if (cb->encoding_symbols_tab[i]) { jb_printf("%s%u", first ? "" : ",", i); first = 0; } }
+			jb_printf("]}");
+		}
 		emit_common(s, sid, st); jb_printf("}\n"); jb_flush();
 	} else if (!strcmp(op, "complete")) {
 		LIB_ENTER(sid);
